@@ -211,3 +211,645 @@ Proof.
     apply pop_min_length in Ep.
     destruct (IH (S np) h1) as [out Ho]; [lia|]. rewrite Ho. cbn [bind]. eexists; reflexivity.
 Qed.
+
+(* ---------------------------------------------------------------- calculated time, cache *)
+Definition ekey (lcs : N -> option N) (m : msg) : entry := (calc_spec lcs m, m).
+Definition coherent (lcs : N -> option N) (c : cache) : Prop :=
+  forall id s, cache_get c id = Some s -> s = lc_start lcs id.
+
+Lemma coherent_nil lcs : coherent lcs [].
+Proof. intros id s H. discriminate. Qed.
+
+Lemma calc_time_spec lcs c m calc c' :
+  calc_time lcs c m = Ok (calc, c') -> coherent lcs c ->
+  calc = calc_spec lcs m /\ coherent lcs c' /\ calc <= m_rt m.
+Proof.
+  unfold calc_time, calc_spec. intros H Hc. destruct (m_ctrl m).
+  - inv_ok H. split; [reflexivity|]. split; [exact Hc|lia].
+  - unfold get_lc_start in H.
+    assert (Hs : exists s c1, (match cache_get c (m_lc m) with
+                               | Some t => (t, c)
+                               | None => (match lcs (m_lc m) with Some s => s | None => 0 end,
+                                          (m_lc m, match lcs (m_lc m) with Some s => s | None => 0 end) :: c)
+                               end) = (s, c1) /\ s = lc_start lcs (m_lc m) /\ coherent lcs c1).
+    { destruct (cache_get c (m_lc m)) as [t|] eqn:Eg.
+      - exists t, c. split; [reflexivity|]. split; [apply Hc; exact Eg|exact Hc].
+      - eexists _, _. split; [reflexivity|]. split; [reflexivity|].
+        intros id s. cbn [cache_get]. destruct (m_lc m =? id) eqn:Ei.
+        + apply N.eqb_eq in Ei. subst id. intros H1. inversion H1. reflexivity.
+        + apply Hc. }
+    destruct Hs as [s [c1 [Hs [Hs1 Hc1]]]]. rewrite Hs in H.
+    inv_ok H. apply add_chk_ok in Ha. destruct Ha as [Ha _]. inv_ok Hb.
+    subst. split; [|split; [exact Hc1|]].
+    + destruct (m_rt m <? lc_start lcs (m_lc m) + m_ts m * 100) eqn:El.
+      * apply N.ltb_lt in El. lia.
+      * apply N.ltb_ge in El. lia.
+    + destruct (m_rt m <? lc_start lcs (m_lc m) + m_ts m * 100) eqn:El.
+      * lia.
+      * apply N.ltb_ge in El. exact El.
+Qed.
+
+(* ---------------------------------------------------------------- threshold *)
+Lemma update_delays_thr w mind d thr ecu lc rt delay d' thr' :
+  update_delays w mind d thr ecu lc rt delay = Ok (d', thr') -> mind <= thr -> mind <= thr'.
+Proof.
+  unfold update_delays. intros H Hm. inv_ok H. destruct a as [e' recalc]. destruct recalc.
+  - inv_ok Hb. inv_ok Hbb. unfold new_thr in Hba. inv_ok Hba.
+    destruct a as [|k r]; [discriminate|]. apply add_chk_ok in Hbab. lia.
+  - inv_ok Hb. exact Hm.
+Qed.
+
+(* ---------------------------------------------------------------- one message *)
+Lemma process_inv pick w mind lcs s m out s' :
+  process pick w mind lcs s m = Ok (out, s') ->
+  exists calc delay np',
+    calc_time lcs (s_cache s) m = Ok (calc, s_cache s') /\
+    sub_chk (m_rt m) calc = Ok delay /\
+    update_delays w mind (s_delays s) (s_thr s) (m_ecu m) (m_lc m) (m_rt m) delay = Ok (s_delays s', s_thr s') /\
+    release pick (length (s_heap s ++ [(calc, m)])) (s_thr s') (m_rt m) (s_np s) (s_heap s ++ [(calc, m)])
+      = Ok (out, s_heap s', np') /\
+    s_np s' = np'.
+Proof.
+  unfold process. intros H. inv_ok H. destruct a as [calc c']. inv_ok Hb. inv_ok Hbb.
+  destruct a0 as [d' thr']. inv_ok Hbbb. destruct a0 as [[o h'] np']. inv_ok Hbbbb.
+  exists calc, a, np'. cbn. auto.
+Qed.
+
+Lemma StronglySorted_app {A} (R : A -> A -> Prop) l1 l2 :
+  StronglySorted R l1 -> StronglySorted R l2 -> Forall (fun x => Forall (R x) l2) l1 ->
+  StronglySorted R (l1 ++ l2).
+Proof.
+  induction l1 as [|x r IH]; intros H1 H2 H12; [exact H2|].
+  inversion H1; subst. inversion H12; subst. cbn. constructor.
+  - apply IH; assumption.
+  - apply Forall_app. split; assumption.
+Qed.
+
+Section Ordered.
+  Variables (pick : picker) (w mind : N) (lcs : N -> option N).
+
+  (* what is known after processing [input] from state [s]; no hypothesis on the stream *)
+  Lemma run_state_perm : forall input s o s',
+    run_state pick w mind lcs s input = Ok (o, s') ->
+    coherent lcs (s_cache s) ->
+    coherent lcs (s_cache s') /\ Permutation (s_heap s ++ map (ekey lcs) input) (o ++ s_heap s').
+  Proof.
+    induction input as [|m r IH]; intros s o s' H Hc; cbn [run_state] in H.
+    - inv_ok H. split; [exact Hc|]. cbn. rewrite app_nil_r. apply Permutation_refl.
+    - inv_ok H. destruct a as [o1 s1]. inv_ok Hb. destruct a as [o2 s2]. inv_ok Hbb.
+      apply process_inv in Ha. destruct Ha as [calc [delay [np' [Hcalc [_ [_ [Hrel _]]]]]]].
+      apply calc_time_spec in Hcalc; [|exact Hc]. destruct Hcalc as [Hcalc [Hc1 _]].
+      apply release_spec in Hrel. destruct Hrel as [Hp _].
+      apply IH in Hba; [|exact Hc1]. destruct Hba as [Hc2 Hp2]. split; [exact Hc2|].
+      cbn [map]. subst calc. fold (ekey lcs m) in Hp.
+      replace (s_heap s ++ ekey lcs m :: map (ekey lcs) r) with ((s_heap s ++ [ekey lcs m]) ++ map (ekey lcs) r)
+        by (rewrite <- app_assoc; reflexivity).
+      eapply Permutation_trans; [apply Permutation_app_tail; exact Hp|].
+      rewrite <- !app_assoc. apply Permutation_app_head. exact Hp2.
+  Qed.
+
+  Lemma run_state_thr : forall input s o s',
+    run_state pick w mind lcs s input = Ok (o, s') -> mind <= s_thr s -> mind <= s_thr s'.
+  Proof.
+    induction input as [|m r IH]; intros s o s' H Hm; cbn [run_state] in H.
+    - inv_ok H. exact Hm.
+    - inv_ok H. destruct a as [o1 s1]. inv_ok Hb. destruct a as [o2 s2]. inv_ok Hbb.
+      apply process_inv in Ha. destruct Ha as [calc [delay [np' [_ [_ [Hupd _]]]]]].
+      apply update_delays_thr in Hupd; [|exact Hm]. eapply IH; eassumption.
+  Qed.
+
+  (* every entry released while processing a message is older than that message by more than the minimum delay *)
+  Lemma process_released_old s m out s' :
+    process pick w mind lcs s m = Ok (out, s') -> mind <= s_thr s ->
+    Forall (fun x => fst x + mind < m_rt m) out.
+  Proof.
+    intros H Hm. apply process_inv in H. destruct H as [calc [delay [np' [_ [_ [Hupd [Hrel _]]]]]]].
+    apply update_delays_thr in Hupd; [|exact Hm].
+    apply release_spec in Hrel. destruct Hrel as [_ [_ [_ [Hthr _]]]].
+    eapply Forall_impl; [|exact Hthr]. cbn beta. intros x Hx. lia.
+  Qed.
+
+  Lemma run_state_sorted : forall input s o s',
+    run_state pick w mind lcs s input = Ok (o, s') ->
+    coherent lcs (s_cache s) -> mind <= s_thr s ->
+    StronglySorted (fun a b => m_rt a <= m_rt b) input ->
+    Forall (fun m => m_rt m <= calc_spec lcs m + mind) input ->
+    StronglySorted kle o /\
+    Forall (fun x => Forall (kle x) (s_heap s')) o /\
+    (forall p, Forall (kle p) (s_heap s) -> Forall (fun m => kle p (ekey lcs m)) input ->
+               Forall (kle p) o /\ Forall (kle p) (s_heap s')).
+  Proof.
+    induction input as [|m r IH]; intros s o s' H Hc Hm Hrt Hb; cbn [run_state] in H.
+    - inv_ok H. split; [constructor|]. split; [constructor|]. intros p Hp _. split; [constructor|exact Hp].
+    - inv_ok H. destruct a as [o1 s1]. inv_ok Hb0. destruct a as [o2 s2]. inv_ok Hb0b.
+      pose proof (process_released_old _ _ _ _ Ha Hm) as Hold.
+      apply process_inv in Ha. destruct Ha as [calc [delay [np' [Hcalc [_ [Hupd [Hrel _]]]]]]].
+      apply calc_time_spec in Hcalc; [|exact Hc]. destruct Hcalc as [Hcalc [Hc1 _]].
+      apply update_delays_thr in Hupd; [|exact Hm].
+      apply release_spec in Hrel. destruct Hrel as [Hp [Hs1 [Hle1 _]]].
+      subst calc. fold (ekey lcs m) in Hp.
+      inversion Hrt as [|? ? Hrt_r Hrt_m]; subst. inversion Hb as [|? ? Hb_m Hb_r]; subst.
+      specialize (IH s1 o2 s' Hb0a Hc1 Hupd Hrt_r Hb_r). destruct IH as [Hs2 [Hle2 Hlow]].
+      (* every entry released now is below everything that is still to come *)
+      assert (Hfut : Forall (fun x => Forall (fun m' => kle x (ekey lcs m')) r) o1).
+      { eapply Forall_impl; [|exact Hold]. cbn beta. intros x Hx.
+        rewrite Forall_forall in Hrt_m, Hb_r. apply Forall_forall. intros m' Hm'.
+        left. cbn [ekey fst]. specialize (Hrt_m m' Hm'). specialize (Hb_r m' Hm'). lia. }
+      assert (H12 : Forall (fun x => Forall (kle x) o2 /\ Forall (kle x) (s_heap s')) o1).
+      { rewrite Forall_forall in Hle1, Hfut. apply Forall_forall. intros x Hx.
+        apply Hlow; [apply Hle1; exact Hx|apply Hfut; exact Hx]. }
+      split; [|split].
+      + apply StronglySorted_app; [exact Hs1|exact Hs2|].
+        eapply Forall_impl; [|exact H12]. cbn beta. intros x [Hx _]. exact Hx.
+      + apply Forall_app. split; [|exact Hle2].
+        eapply Forall_impl; [|exact H12]. cbn beta. intros x [_ Hx]. exact Hx.
+      + intros p Hp0 Hpin. inversion Hpin as [|? ? Hpm Hpr]; subst.
+        assert (Hall : Forall (kle p) (o1 ++ s_heap s1)).
+        { eapply Permutation_Forall; [exact Hp|]. apply Forall_app. split; [exact Hp0|]. constructor; [exact Hpm|constructor]. }
+        apply Forall_app in Hall. destruct Hall as [Hpo1 Hph1].
+        destruct (Hlow p Hph1 Hpr) as [Hpo2 Hph2].
+        split; [apply Forall_app; split; assumption|exact Hph2].
+  Qed.
+End Ordered.
+
+(* ---------------------------------------------------------------- whole runs *)
+Lemma run_entries_inv pick w mind lcs input o :
+  run_entries pick w mind lcs input = Ok o ->
+  exists o1 s o2,
+    run_state pick w mind lcs (init mind) input = Ok (o1, s) /\
+    flush pick (length (s_heap s)) (s_np s) (s_heap s) = Ok o2 /\ o = o1 ++ o2.
+Proof.
+  unfold run_entries. intros H. inv_ok H. destruct a as [o1 s]. inv_ok Hb. inv_ok Hbb.
+  exists o1, s, a. auto.
+Qed.
+
+Lemma run_entries_perm pick w mind lcs input o :
+  run_entries pick w mind lcs input = Ok o -> Permutation o (map (ekey lcs) input).
+Proof.
+  intros H. apply run_entries_inv in H. destruct H as [o1 [s [o2 [H1 [H2 Ho]]]]]. subst o.
+  apply run_state_perm in H1; [|apply coherent_nil]. destruct H1 as [_ Hp]. cbn [init s_heap app] in Hp.
+  apply flush_spec in H2. destruct H2 as [Hp2 _].
+  symmetry. eapply Permutation_trans; [exact Hp|]. apply Permutation_app_head. exact Hp2.
+Qed.
+
+Lemma map_snd_ekey lcs l : map snd (map (ekey lcs) l) = l.
+Proof. induction l as [|x r IH]; [reflexivity|]. cbn. rewrite IH. reflexivity. Qed.
+
+Theorem run_perm pick w mind lcs input out :
+  run pick w mind lcs input = Ok out -> Permutation out input.
+Proof.
+  unfold run. intros H. inv_ok H. inv_ok Hb.
+  apply run_entries_perm in Ha. rewrite <- (map_snd_ekey lcs input). apply Permutation_map. exact Ha.
+Qed.
+
+(* the entries handed out carry the calculated time of the specification *)
+Lemma run_entries_keys pick w mind lcs input o :
+  run_entries pick w mind lcs input = Ok o -> o = map (ekey lcs) (map snd o).
+Proof.
+  intros H. apply run_entries_perm in H.
+  assert (Hin : Forall (fun e => e = ekey lcs (snd e)) o).
+  { apply Forall_forall. intros e He. eapply Permutation_in in He; [|exact H].
+    apply in_map_iff in He. destruct He as [m [Hm _]]. subst e. reflexivity. }
+  clear H. induction Hin as [|e r He _ IH]; [reflexivity|]. cbn [map]. rewrite <- He, <- IH. reflexivity.
+Qed.
+
+Theorem run_entries_sorted pick w mind lcs input o :
+  run_entries pick w mind lcs input = Ok o ->
+  StronglySorted (fun a b => m_rt a <= m_rt b) input ->
+  Forall (fun m => m_rt m <= calc_spec lcs m + mind) input ->
+  StronglySorted kle o.
+Proof.
+  intros H Hrt Hb. apply run_entries_inv in H. destruct H as [o1 [s [o2 [H1 [H2 Ho]]]]]. subst o.
+  apply run_state_sorted in H1; [|apply coherent_nil|cbn; lia|exact Hrt|exact Hb].
+  destruct H1 as [Hs1 [Hle _]].
+  apply flush_spec in H2. destruct H2 as [Hp2 Hs2].
+  apply StronglySorted_app; [exact Hs1|exact Hs2|].
+  eapply Forall_impl; [|exact Hle]. cbn beta. intros x Hx. eapply Permutation_Forall; eassumption.
+Qed.
+
+(* ---------------------------------------------------------------- the order on messages *)
+Definition before (lcs : N -> option N) (a b : msg) : Prop :=
+  calc_spec lcs a < calc_spec lcs b \/ (calc_spec lcs a = calc_spec lcs b /\ m_index a < m_index b).
+
+Lemma StronglySorted_map_inv {A B} (f : A -> B) (R : B -> B -> Prop) l :
+  StronglySorted R (map f l) -> StronglySorted (fun a b => R (f a) (f b)) l.
+Proof.
+  induction l as [|x r IH]; intros H; [constructor|]. cbn [map] in H. inversion H; subst.
+  constructor; [apply IH; assumption|]. rewrite Forall_map in H3. exact H3.
+Qed.
+
+Lemma StronglySorted_NoDup_strict {A} (R : A -> A -> Prop) (f : A -> N) l :
+  StronglySorted R l -> NoDup (map f l) -> StronglySorted (fun a b => R a b /\ f a <> f b) l.
+Proof.
+  induction l as [|x r IH]; intros Hs Hn; [constructor|]. inversion Hs; subst. cbn [map] in Hn. inversion Hn; subst.
+  constructor; [apply IH; assumption|].
+  rewrite Forall_forall in *. intros y Hy. split; [apply H2; exact Hy|].
+  intros E. apply H3. rewrite E. apply in_map. exact Hy.
+Qed.
+
+Lemma StronglySorted_lt_NoDup {A} (f : A -> N) l :
+  StronglySorted (fun a b => f a < f b) l -> NoDup (map f l).
+Proof.
+  induction l as [|x r IH]; intros H; [constructor|]. inversion H; subst. cbn [map]. constructor; [|apply IH; assumption].
+  intros Hin. apply in_map_iff in Hin. destruct Hin as [y [Hy Hyin]].
+  rewrite Forall_forall in H3. specialize (H3 y Hyin). lia.
+Qed.
+
+Lemma StronglySorted_impl {A} (R S : A -> A -> Prop) l :
+  (forall a b, R a b -> S a b) -> StronglySorted R l -> StronglySorted S l.
+Proof.
+  intros HRS. induction 1 as [|x r _ IH Hx]; constructor; [exact IH|].
+  eapply Forall_impl; [|exact Hx]. intros y. apply HRS.
+Qed.
+
+Theorem run_sorted pick w mind lcs input out :
+  StronglySorted (fun a b => m_rt a <= m_rt b) input ->
+  StronglySorted (fun a b => m_index a < m_index b) input ->
+  Forall (fun m => m_rt m - calc_spec lcs m <= mind) input ->
+  run pick w mind lcs input = Ok out ->
+  StronglySorted (before lcs) out.
+Proof.
+  intros Hrt Hidx Hb H. pose proof (run_perm _ _ _ _ _ _ H) as Hperm.
+  unfold run in H. inv_ok H. inv_ok Hb0.
+  pose proof (run_entries_keys _ _ _ _ _ _ Ha) as Hk.
+  apply run_entries_sorted in Ha; [|exact Hrt|].
+  - rewrite Hk in Ha. apply StronglySorted_map_inv in Ha.
+    apply StronglySorted_NoDup_strict with (f := m_index) in Ha.
+    + eapply StronglySorted_impl; [|exact Ha]. cbn beta. unfold before, kle, ekey. cbn [fst snd].
+      intros x y [[H1|[H1 H2]] H3]; [left; exact H1|right; split; [exact H1|lia]].
+    + apply StronglySorted_lt_NoDup in Hidx.
+      eapply Permutation_NoDup; [|exact Hidx]. apply Permutation_map. symmetry. exact Hperm.
+  - eapply Forall_impl; [|exact Hb]. cbn beta. intros m Hm. lia.
+Qed.
+
+(* ---------------------------------------------------------------- no panic (window size >= 1, sums within u64) *)
+Lemma split_last_some {A} (l : list A) i b : split_last l = Some (i, b) -> l = i ++ [b].
+Proof.
+  revert i b. induction l as [|x r IH]; intros i b H; [discriminate|]. cbn [split_last] in H.
+  destruct (split_last r) as [[i' b']|] eqn:E.
+  - inversion H; subst. rewrite (IH i' b eq_refl). reflexivity.
+  - inversion H; subst. destruct r as [|y r']; [reflexivity|].
+    cbn [split_last] in E. destruct (split_last r') as [[? ?]|]; discriminate.
+Qed.
+Lemma split_last_none {A} (l : list A) : split_last l = None -> l = [].
+Proof.
+  destruct l as [|x r]; [reflexivity|]. cbn [split_last]. destruct (split_last r) as [[? ?]|]; discriminate.
+Qed.
+
+Section NoPanic.
+  Variables (w mind B : N).
+  Hypothesis Hw : 1 <= w.
+  Hypothesis Hov : 2 * B + mind + YOUNG_DELAY + w * US_PER_SEC <= u64max.
+
+  Definition wb (x : wentry) : Prop := w_start x <= B /\ w_max x <= B.
+  Definition ebound (e : ecu_st) : Prop := Forall wb (e_win e) /\ e_max e <= B.
+  Definition win_ok (e : ecu_st) : Prop := e_win e <> [] /\ ebound e.
+  Definition delays_ok (d : delays) : Prop := Forall (fun p => win_ok (snd p)) d.
+  Definition M : N := N.max YOUNG_DELAY B.
+
+  Lemma max_wmax_bound l : forall acc, Forall wb l -> acc <= B -> max_wmax l acc <= B.
+  Proof.
+    induction l as [|x r IH]; intros acc Hl Ha; cbn [max_wmax]; [exact Ha|].
+    inversion Hl as [|? ? [_ Hx] Hr]; subst. apply IH; [exact Hr|lia].
+  Qed.
+
+  Lemma finish_entry_ok e rd rt :
+    win_ok e -> exists e' r', finish_entry e rd rt = Ok (e', r') /\ win_ok e'.
+  Proof.
+    intros [Hne [Hwin Hmax]]. unfold finish_entry. destruct rd.
+    - destruct (e_win e) as [|x r] eqn:Ew; [congruence|].
+      eexists _, _. split; [reflexivity|]. unfold win_ok, ebound. cbn [e_win e_max].
+      split; [discriminate|]. split; [exact Hwin|].
+      inversion Hwin as [|? ? [_ Hx] Hr]; subst. apply max_wmax_bound; assumption.
+    - eexists _, _. split; [reflexivity|]. split; [exact Hne|split; assumption].
+  Qed.
+
+  Lemma app_one_ne {A} (l : list A) x : l ++ [x] <> [].
+  Proof. destruct l; discriminate. Qed.
+
+  Lemma update_entry_ok e0 lc rt delay :
+    ebound e0 -> rt <= B -> delay <= B ->
+    exists e' r, update_entry w e0 lc rt delay = Ok (e', r) /\ win_ok e'.
+  Proof.
+    intros He0 Hrt Hd. unfold update_entry.
+    assert (He1 : exists e1 r1, (if e_lc e0 =? lc then (e0, false) else (mke lc [] delay, true)) = (e1, r1) /\ ebound e1).
+    { destruct (e_lc e0 =? lc); eexists _, _; (split; [reflexivity|]); [exact He0|].
+      split; [constructor|exact Hd]. }
+    destruct He1 as [e1 [r1 [E1 [Hwin Hmax]]]]. rewrite E1. clear E1 He0.
+    assert (Hnew : wb (mkw rt delay)) by (split; assumption).
+    destruct (split_last (e_win e1)) as [[init b]|] eqn:Es.
+    - pose proof (split_last_some _ _ _ Es) as Hl.
+      assert (Hb : wb b /\ Forall wb init).
+      { rewrite Hl in Hwin. apply Forall_app in Hwin. destruct Hwin as [Hi Hb]. inversion Hb; subst. split; assumption. }
+      destruct Hb as [[Hbs Hbm] Hinit].
+      unfold add_chk. assert (Ha : w_start b + US_PER_SEC <=? u64max = true).
+      { apply N.leb_le. unfold US_PER_SEC, YOUNG_DELAY in *. lia. }
+      rewrite Ha. cbn [bind]. destruct (w_start b + US_PER_SEC <? rt).
+      + (* insert *)
+        destruct (N.of_nat (length (e_win e1)) =? w) eqn:Elen.
+        * destruct (e_win e1) as [|f rest] eqn:Ew; [destruct init; discriminate|]. cbn [bind].
+          inversion Hwin as [|? ? Hf Hrest]; subst.
+          destruct (e_max e1 <? delay); apply finish_entry_ok; (split; [apply app_one_ne|]);
+            (split; [apply Forall_app; split; [exact Hrest|constructor; [exact Hnew|constructor]]|cbn; assumption]).
+        * cbn [bind].
+          destruct (e_max e1 <? delay); apply finish_entry_ok; (split; [apply app_one_ne|]);
+            (split; [apply Forall_app; split; [exact Hwin|constructor; [exact Hnew|constructor]]|cbn; assumption]).
+      + (* update the last entry *)
+        destruct (w_max b <? delay).
+        * destruct (e_max e1 <? delay); apply finish_entry_ok; (split; [apply app_one_ne|]);
+            (split; [apply Forall_app; split; [exact Hinit|constructor; [split; cbn; assumption|constructor]]|cbn; assumption]).
+        * apply finish_entry_ok. split; [rewrite Hl; apply app_one_ne|split; assumption].
+    - pose proof (split_last_none _ Es) as Hl. cbn [bind].
+      rewrite Hl. cbn [length]. replace (N.of_nat 0 =? w) with false by (symmetry; apply N.eqb_neq; lia).
+      cbn [bind app].
+      destruct (e_max e1 <? delay); apply finish_entry_ok; (split; [discriminate|]);
+        (split; [constructor; [exact Hnew|constructor]|cbn; assumption]).
+  Qed.
+
+  Lemma thr_key_ok rt e : win_ok e -> exists k, thr_key w rt e = Ok k /\ k <= M.
+  Proof.
+    intros [Hne [Hwin Hmax]]. unfold thr_key. destruct (e_win e) as [|f r]; [congruence|].
+    inversion Hwin as [|? ? [Hf _] _]; subst.
+    unfold sub_chk. replace (1 <=? w) with true by (symmetry; apply N.leb_le; exact Hw). cbn [bind].
+    unfold add_chk. replace (w_start f + (w - 1) * US_PER_SEC <=? u64max) with true.
+    - cbn [bind]. eexists. split; [reflexivity|]. unfold M. destruct (rt <? _); lia.
+    - symmetry. apply N.leb_le. unfold US_PER_SEC, YOUNG_DELAY in *. nia.
+  Qed.
+
+  Lemma thr_keys_ok rt d : delays_ok d -> exists ks, thr_keys w rt d = Ok ks /\ Forall (fun k => k <= M) ks /\ length ks = length d.
+  Proof.
+    induction d as [|[k e] r IH]; intros Hd; cbn [thr_keys].
+    - exists []. repeat split; constructor.
+    - inversion Hd as [|? ? He Hr]; subst. cbn [snd] in He.
+      destruct (thr_key_ok rt e He) as [k0 [Hk0 Hk0b]]. destruct (IH Hr) as [ks [Hks [Hksb Hlen]]].
+      rewrite Hk0, Hks. cbn [bind]. eexists. split; [reflexivity|]. split; [constructor; assumption|cbn; lia].
+  Qed.
+
+  Lemma fold_max_bound l : forall k, Forall (fun x => x <= M) l -> k <= M -> fold_left N.max l k <= M.
+  Proof.
+    induction l as [|x r IH]; intros k Hl Hk; cbn [fold_left]; [exact Hk|].
+    inversion Hl; subst. apply IH; [assumption|lia].
+  Qed.
+
+  Lemma new_thr_ok rt d : delays_ok d -> d <> [] -> exists t, new_thr w mind rt d = Ok t /\ t <= mind + M.
+  Proof.
+    intros Hd Hne. unfold new_thr. destruct (thr_keys_ok rt d Hd) as [ks [Hks [Hb Hlen]]]. rewrite Hks. cbn [bind].
+    destruct ks as [|k r]; [destruct d; [congruence|discriminate]|].
+    inversion Hb; subst. pose proof (fold_max_bound r k H2 H1) as Hf.
+    unfold add_chk. replace (mind + fold_left N.max r k <=? u64max) with true.
+    - eexists. split; [reflexivity|]. lia.
+    - symmetry. apply N.leb_le. unfold M in *. lia.
+  Qed.
+
+  Lemma d_get_ok d ecu e : delays_ok d -> d_get d ecu = Some e -> win_ok e.
+  Proof.
+    induction d as [|[k e0] r IH]; intros Hd H; [discriminate|]. cbn [d_get] in H.
+    inversion Hd; subst. destruct (k =? ecu); [inversion H; subst; assumption|auto].
+  Qed.
+  Lemma d_set_ok d ecu e : delays_ok d -> win_ok e -> delays_ok (d_set d ecu e) /\ d_set d ecu e <> [].
+  Proof.
+    induction d as [|[k e0] r IH]; intros Hd He; cbn [d_set].
+    - split; [constructor; [exact He|constructor]|discriminate].
+    - inversion Hd; subst. destruct (k =? ecu).
+      + split; [constructor; assumption|discriminate].
+      + split; [|discriminate]. constructor; [assumption|]. apply IH; assumption.
+  Qed.
+
+  Lemma update_delays_ok d thr ecu lc rt delay :
+    delays_ok d -> thr <= mind + M -> rt <= B -> delay <= B ->
+    exists d' thr', update_delays w mind d thr ecu lc rt delay = Ok (d', thr') /\ delays_ok d' /\ thr' <= mind + M.
+  Proof.
+    intros Hd Ht Hrt Hdl. unfold update_delays.
+    assert (He0 : ebound (match d_get d ecu with Some e => e | None => mke lc [] 0 end)).
+    { destruct (d_get d ecu) as [e|] eqn:Eg.
+      - apply d_get_ok in Eg; [|exact Hd]. apply Eg.
+      - split; [constructor|cbn; lia]. }
+    destruct (update_entry_ok _ lc rt delay He0 Hrt Hdl) as [e' [r [Hu He']]]. rewrite Hu. cbn [bind].
+    destruct (d_set_ok d ecu e' Hd He') as [Hd' Hne]. destruct r.
+    - destruct (new_thr_ok rt _ Hd' Hne) as [t [Hn Hb]]. rewrite Hn. cbn [bind]. eexists _, _. split; [reflexivity|]. split; assumption.
+    - eexists _, _. split; [reflexivity|]. split; assumption.
+  Qed.
+
+  Lemma release_ok pick thr rt : forall fuel np h,
+    (length h <= fuel)%nat -> Forall (fun e => fst e + thr <= u64max) h ->
+    exists r, release pick fuel thr rt np h = Ok r.
+  Proof.
+    induction fuel as [|f IH]; intros np h Hl Hb; cbn [release].
+    - destruct h; [|cbn in Hl; lia]. rewrite pop_min_nil. eexists; reflexivity.
+    - destruct (pop_min (pick np h) h) as [[e h1]|] eqn:Ep; [|eexists; reflexivity].
+      pose proof (pop_min_perm _ _ _ _ Ep) as Hp. pose proof (pop_min_length _ _ _ _ Ep) as Hlen.
+      eapply Permutation_Forall in Hb; [|exact Hp]. inversion Hb; subst.
+      unfold add_chk. replace (fst e + thr <=? u64max) with true by (symmetry; apply N.leb_le; assumption).
+      cbn [bind]. destruct (fst e + thr <? rt); [|eexists; reflexivity].
+      destruct (IH (S np) h1) as [[[o h2] n2] Hr]; [unfold heap, entry in *; lia|assumption|]. rewrite Hr. cbn [bind]. eexists; reflexivity.
+  Qed.
+
+  Variable lcs : N -> option N.
+  Definition msg_ok (m : msg) : Prop :=
+    m_rt m <= B /\ (m_ctrl m = false -> lc_start lcs (m_lc m) + m_ts m * 100 <= u64max).
+  Definition inv (s : st) : Prop :=
+    coherent lcs (s_cache s) /\ delays_ok (s_delays s) /\ s_thr s <= mind + M /\ Forall (fun e => fst e <= B) (s_heap s).
+
+  Lemma calc_time_ok c m : coherent lcs c -> msg_ok m -> exists calc c', calc_time lcs c m = Ok (calc, c').
+  Proof.
+    intros Hc [_ Hts]. unfold calc_time. destruct (m_ctrl m); [eexists _, _; reflexivity|].
+    unfold get_lc_start. destruct (cache_get c (m_lc m)) as [t|] eqn:Eg.
+    - apply Hc in Eg. subst t. unfold add_chk.
+      replace (lc_start lcs (m_lc m) + m_ts m * 100 <=? u64max) with true by (symmetry; apply N.leb_le; auto).
+      cbn [bind]. eexists _, _; reflexivity.
+    - fold (lc_start lcs (m_lc m)). unfold add_chk.
+      replace (lc_start lcs (m_lc m) + m_ts m * 100 <=? u64max) with true by (symmetry; apply N.leb_le; auto).
+      cbn [bind]. eexists _, _; reflexivity.
+  Qed.
+
+  Lemma process_ok pick s m : inv s -> msg_ok m -> exists out s', process pick w mind lcs s m = Ok (out, s') /\ inv s'.
+  Proof.
+    intros [Hc [Hd [Ht Hh]]] Hm. unfold process.
+    destruct (calc_time_ok _ m Hc Hm) as [calc [c' Hcalc]]. rewrite Hcalc. cbn [bind].
+    destruct (calc_time_spec _ _ _ _ _ Hcalc Hc) as [_ [Hc' Hle]]. destruct Hm as [Hrt _].
+    unfold sub_chk. replace (calc <=? m_rt m) with true by (symmetry; apply N.leb_le; exact Hle). cbn [bind].
+    destruct (update_delays_ok (s_delays s) (s_thr s) (m_ecu m) (m_lc m) (m_rt m) (m_rt m - calc) Hd Ht Hrt) as [d' [thr' [Hu [Hd' Ht']]]]; [lia|].
+    rewrite Hu. cbn [bind].
+    assert (Hh2 : Forall (fun e => fst e <= B) (s_heap s ++ [(calc, m)])).
+    { apply Forall_app. split; [exact Hh|]. constructor; [cbn; lia|constructor]. }
+    destruct (release_ok pick thr' (m_rt m) (length (s_heap s ++ [(calc, m)])) (s_np s) (s_heap s ++ [(calc, m)])) as [[[o h'] np'] Hr].
+    - apply Nat.le_refl.
+    - eapply Forall_impl; [|exact Hh2]. cbn beta. intros e He. unfold M in *. lia.
+    - rewrite Hr. cbn [bind]. eexists _, _. split; [reflexivity|]. unfold inv. cbn [s_cache s_delays s_thr s_heap].
+      split; [exact Hc'|]. split; [exact Hd'|]. split; [exact Ht'|].
+      apply release_spec in Hr. destruct Hr as [Hp _].
+      eapply Permutation_Forall in Hh2; [|exact Hp]. apply Forall_app in Hh2. apply Hh2.
+  Qed.
+
+  Lemma run_state_ok pick : forall input s, inv s -> Forall msg_ok input ->
+    exists o s', run_state pick w mind lcs s input = Ok (o, s') /\ inv s'.
+  Proof.
+    induction input as [|m r IH]; intros s Hs Hin; cbn [run_state].
+    - eexists _, _. split; [reflexivity|exact Hs].
+    - inversion Hin; subst. destruct (process_ok pick s m Hs H1) as [o1 [s1 [Hp Hs1]]]. rewrite Hp. cbn [bind].
+      destruct (IH s1 Hs1 H2) as [o2 [s2 [Hr Hs2]]]. rewrite Hr. cbn [bind]. eexists _, _. split; [reflexivity|exact Hs2].
+  Qed.
+
+  Lemma inv_init : inv (init mind).
+  Proof.
+    unfold inv, init. cbn. split; [apply coherent_nil|]. split; [constructor|]. split; [lia|constructor].
+  Qed.
+
+  Theorem run_ok pick input : Forall msg_ok input -> exists out, run pick w mind lcs input = Ok out.
+  Proof.
+    intros Hin. unfold run, run_entries.
+    destruct (run_state_ok pick input (init mind) inv_init Hin) as [o [s [Hr _]]]. rewrite Hr. cbn [bind].
+    destruct (flush_ok pick (length (s_heap s)) (s_np s) (s_heap s)) as [o2 Hf]; [lia|]. rewrite Hf. cbn [bind].
+    eexists; reflexivity.
+  Qed.
+End NoPanic.
+
+(* ---------------------------------------------------------------- window size 0: the first message panics *)
+Lemma run_window_zero_panics pick mind lcs m r :
+  (m_ctrl m = false -> lc_start lcs (m_lc m) + m_ts m * 100 <= u64max) ->
+  run pick 0 mind lcs (m :: r) = Panic site_unwrap.
+Proof.
+  intros Hts. unfold run, run_entries. cbn [run_state]. unfold process. cbn [init s_cache s_delays s_thr s_heap s_np].
+  destruct (calc_time_ok (m_rt m) lcs [] m (coherent_nil lcs)) as [calc [c' Hc]].
+  { split; [lia|exact Hts]. }
+  rewrite Hc. cbn [bind].
+  destruct (calc_time_spec _ _ _ _ _ Hc (coherent_nil lcs)) as [_ [_ Hle]].
+  unfold sub_chk. replace (calc <=? m_rt m) with true by (symmetry; apply N.leb_le; exact Hle). cbn [bind].
+  unfold update_delays. cbn [d_get]. unfold update_entry. cbn [e_lc]. rewrite N.eqb_refl. cbn. reflexivity.
+Qed.
+
+(* ---------------------------------------------------------------- ties in original order, explicitly *)
+Lemma StronglySorted_split {A} (R : A -> A -> Prop) l1 a l2 :
+  StronglySorted R (l1 ++ a :: l2) -> Forall (fun x => R x a) l1 /\ Forall (R a) l2.
+Proof.
+  induction l1 as [|x r IH]; intros H; cbn [app] in H; inversion H; subst.
+  - split; [constructor|assumption].
+  - destruct (IH H2) as [H4 H5]. split; [|exact H5]. constructor; [|exact H4].
+    rewrite Forall_forall in H3. apply H3. apply in_or_app. right. left. reflexivity.
+Qed.
+
+Lemma run_ties_original_order pick w mind lcs input out l1 a l2 b l3 :
+  StronglySorted (fun a b => m_rt a <= m_rt b) input ->
+  StronglySorted (fun a b => m_index a < m_index b) input ->
+  Forall (fun m => m_rt m - calc_spec lcs m <= mind) input ->
+  run pick w mind lcs input = Ok out ->
+  out = l1 ++ a :: l2 ++ b :: l3 -> calc_spec lcs a = calc_spec lcs b ->
+  exists i1 i2 i3, input = i1 ++ a :: i2 ++ b :: i3.
+Proof.
+  intros Hrt Hidx Hb H Hout Hcalc.
+  pose proof (run_perm _ _ _ _ _ _ H) as Hperm.
+  pose proof (run_sorted _ _ _ _ _ _ Hrt Hidx Hb H) as Hs.
+  rewrite Hout in Hs. apply StronglySorted_split in Hs. destruct Hs as [_ Hs].
+  rewrite Forall_forall in Hs. assert (Hab : before lcs a b) by (apply Hs; apply in_or_app; right; left; reflexivity).
+  assert (Hlt : m_index a < m_index b) by (destruct Hab as [Hab|[_ Hab]]; [lia|exact Hab]).
+  assert (Ha : In a input) by (eapply Permutation_in; [exact Hperm|]; rewrite Hout; apply in_or_app; right; left; reflexivity).
+  assert (Hbin : In b input).
+  { eapply Permutation_in; [exact Hperm|]. rewrite Hout. apply in_or_app. right. right. apply in_or_app. right. left. reflexivity. }
+  apply in_split in Ha. destruct Ha as [i1 [rest Hin]]. rewrite Hin in Hidx, Hbin.
+  apply StronglySorted_split in Hidx. destruct Hidx as [Hpre _].
+  apply in_app_or in Hbin. destruct Hbin as [Hb1|[Hb1|Hb1]].
+  - rewrite Forall_forall in Hpre. specialize (Hpre b Hb1). cbn beta in Hpre. lia.
+  - subst b. lia.
+  - apply in_split in Hb1. destruct Hb1 as [i2 [i3 Hr]]. exists i1, i2, i3. rewrite Hin, Hr. reflexivity.
+Qed.
+
+(* ---------------------------------------------------------------- distinct indices: the heap has no freedom *)
+Lemma NoDup_app_remove_l {A} (l l' : list A) : NoDup (l ++ l') -> NoDup l'.
+Proof. induction l as [|x r IH]; intros H; [exact H|]. cbn in H. inversion H; auto. Qed.
+Lemma NoDup_app_remove_r {A} (l l' : list A) : NoDup (l ++ l') -> NoDup l.
+Proof.
+  induction l as [|x r IH]; intros H; [constructor|]. cbn in H. inversion H; subst. constructor; [|auto].
+  intros Hin. apply H2. apply in_or_app. left. exact Hin.
+Qed.
+
+Definition eidx (e : entry) : N := m_index (snd e).
+
+Lemma choose_spec k (h : heap) : h <> [] -> exists e, nth_error h (choose k h) = Some e /\ is_min h e = true.
+Proof.
+  intros Hne. unfold choose. destruct (valid_choice h k) eqn:Ev.
+  - unfold valid_choice in Ev. destruct (nth_error h k) as [e|]; [|discriminate]. exists e. auto.
+  - apply (first_min_from_spec h h [] 0%nat); [reflexivity|reflexivity|].
+    destruct (exists_min h Hne) as [e [He Hm]].
+    exists e. split; [exact He|apply is_min_spec; exact Hm].
+Qed.
+
+Lemma choose_unique k1 k2 (h : heap) : NoDup (map eidx h) -> choose k1 h = choose k2 h.
+Proof.
+  intros Hn. destruct h as [|x r] eqn:Eh.
+  - unfold choose, valid_choice. destruct k1, k2; reflexivity.
+  - rewrite <- Eh in *. assert (Hne : h <> []) by (rewrite Eh; discriminate).
+    destruct (choose_spec k1 h Hne) as [e1 [Hn1 Hm1]]. destruct (choose_spec k2 h Hne) as [e2 [Hn2 Hm2]].
+    apply is_min_spec in Hm1, Hm2. rewrite Forall_forall in Hm1, Hm2.
+    pose proof (Hm1 e2 (nth_error_In _ _ Hn2)) as H12. pose proof (Hm2 e1 (nth_error_In _ _ Hn1)) as H21.
+    assert (Hi : eidx e1 = eidx e2) by (unfold kle, eidx in *; lia).
+    rewrite NoDup_nth_error in Hn. apply Hn.
+    + rewrite map_length. apply nth_error_Some. rewrite Hn1. discriminate.
+    + rewrite !nth_error_map, Hn1, Hn2. cbn. rewrite Hi. reflexivity.
+Qed.
+
+Lemma pop_min_unique k1 k2 h : NoDup (map eidx h) -> pop_min k1 h = pop_min k2 h.
+Proof. intros Hn. unfold pop_min. rewrite (choose_unique k1 k2 h Hn). reflexivity. Qed.
+
+Lemma pop_min_nodup k h e h' : pop_min k h = Some (e, h') -> NoDup (map eidx h) -> NoDup (map eidx h').
+Proof.
+  intros H Hn. apply pop_min_perm in H. apply (Permutation_map eidx) in H.
+  eapply Permutation_NoDup in Hn; [|exact H]. cbn [map] in Hn. inversion Hn; assumption.
+Qed.
+
+Lemma release_unique p1 p2 thr rt : forall fuel np h,
+  NoDup (map eidx h) -> release p1 fuel thr rt np h = release p2 fuel thr rt np h.
+Proof.
+  induction fuel as [|f IH]; intros np h Hn; cbn [release]; rewrite (pop_min_unique (p1 np h) (p2 np h) h Hn); [reflexivity|].
+  destruct (pop_min (p2 np h) h) as [[e h1]|] eqn:Ep; [|reflexivity].
+  rewrite (IH (S np) h1); [reflexivity|]. eapply pop_min_nodup; eassumption.
+Qed.
+
+Lemma flush_unique p1 p2 : forall fuel np h,
+  NoDup (map eidx h) -> flush p1 fuel np h = flush p2 fuel np h.
+Proof.
+  induction fuel as [|f IH]; intros np h Hn; cbn [flush]; rewrite (pop_min_unique (p1 np h) (p2 np h) h Hn); [reflexivity|].
+  destruct (pop_min (p2 np h) h) as [[e h1]|] eqn:Ep; [|reflexivity].
+  rewrite (IH (S np) h1); [reflexivity|]. eapply pop_min_nodup; eassumption.
+Qed.
+
+Lemma process_unique p1 p2 w mind lcs s m :
+  NoDup (map eidx (s_heap s) ++ [m_index m]) -> process p1 w mind lcs s m = process p2 w mind lcs s m.
+Proof.
+  intros Hn. unfold process. destruct (calc_time lcs (s_cache s) m) as [[calc c']| |]; [|reflexivity|reflexivity]. cbn [bind].
+  destruct (sub_chk (m_rt m) calc) as [delay| |]; [|reflexivity|reflexivity]. cbn [bind].
+  destruct (update_delays w mind (s_delays s) (s_thr s) (m_ecu m) (m_lc m) (m_rt m) delay) as [[d' thr']| |]; [|reflexivity|reflexivity].
+  cbn [bind]. rewrite (release_unique p1 p2); [reflexivity|]. rewrite map_app. exact Hn.
+Qed.
+
+Lemma run_state_unique p1 p2 w mind lcs : forall input s,
+  NoDup (map eidx (s_heap s) ++ map m_index input) ->
+  run_state p1 w mind lcs s input = run_state p2 w mind lcs s input.
+Proof.
+  induction input as [|m r IH]; intros s Hn; cbn [run_state]; [reflexivity|].
+  cbn [map] in Hn.
+  assert (Hn1 : NoDup (map eidx (s_heap s) ++ [m_index m])).
+  { replace (map eidx (s_heap s) ++ m_index m :: map m_index r) with ((map eidx (s_heap s) ++ [m_index m]) ++ map m_index r) in Hn
+      by (rewrite <- app_assoc; reflexivity).
+    eapply NoDup_app_remove_r. exact Hn. }
+  rewrite (process_unique p1 p2 w mind lcs s m Hn1).
+  destruct (process p2 w mind lcs s m) as [[o1 s1]| |] eqn:Ep; [|reflexivity|reflexivity]. cbn [bind].
+  rewrite (IH s1); [reflexivity|].
+  apply process_inv in Ep. destruct Ep as [calc [delay [np' [_ [_ [_ [Hrel _]]]]]]].
+  apply release_spec in Hrel. destruct Hrel as [Hp _].
+  apply (Permutation_map eidx) in Hp. rewrite !map_app in Hp. cbn [map] in Hp. unfold eidx at 2 in Hp. cbn [snd] in Hp.
+  replace (map eidx (s_heap s) ++ m_index m :: map m_index r) with ((map eidx (s_heap s) ++ [m_index m]) ++ map m_index r) in Hn
+    by (rewrite <- app_assoc; reflexivity).
+  eapply Permutation_NoDup in Hn; [|apply Permutation_app_tail; exact Hp].
+  rewrite <- app_assoc in Hn. eapply NoDup_app_remove_l. exact Hn.
+Qed.
+
+Theorem run_unique p1 p2 w mind lcs input :
+  NoDup (map m_index input) -> run p1 w mind lcs input = run p2 w mind lcs input.
+Proof.
+  intros Hn. unfold run, run_entries. rewrite (run_state_unique p1 p2 w mind lcs input (init mind)); [|exact Hn].
+  destruct (run_state p2 w mind lcs (init mind) input) as [[o s]| |] eqn:Er; [|reflexivity|reflexivity]. cbn [bind].
+  rewrite (flush_unique p1 p2); [reflexivity|].
+  apply run_state_perm in Er; [|apply coherent_nil]. destruct Er as [_ Hp]. cbn [init s_heap app] in Hp.
+  apply (Permutation_map eidx) in Hp. rewrite map_app, map_map in Hp. unfold eidx at 1 in Hp. cbn [ekey snd] in Hp.
+  eapply Permutation_NoDup in Hn; [|exact Hp]. eapply NoDup_app_remove_l. exact Hn.
+Qed.
